@@ -4,6 +4,7 @@ import TaRs.Gen.ChandelierExit
 import TaRs.Lemmas.Minimum
 import TaRs.Lemmas.Maximum
 import TaRs.Lemmas.AverageTrueRange
+import TaRs.Lemmas.Total.ChandelierExit
 namespace TaRs.Gen.ChandelierExit
 open TaRs TaRs.Rs
 variable {F : Type} [Scalar F]
@@ -29,15 +30,5 @@ theorem nextBar_none_iff (s : ChandelierExit F) (b : Bar F) :
   unfold nextBar
   try simp only [gen_helper]
   cases h2 : s.min.nextBar b <;> cases h3 : s.max.nextBar b <;> simp [h1, h2, h3]
-
-theorem nextBar_total (s : ChandelierExit F) (b : Bar F) (h : WF s) :
-    ∃ r, s.nextBar b = some r ∧ WF r.1 ∧ r.1.period_fn = s.period_fn ∧
-      r.1.multiplier = s.multiplier := by
-  obtain ⟨⟨atr', a⟩, e1, w1, p1⟩ := AverageTrueRange.nextBar_total s.atr b h.atr
-  obtain ⟨⟨mn', lo⟩, e2, w2, p2⟩ := Minimum.nextBar_total s.min b h.min
-  obtain ⟨⟨mx', hi⟩, e3, w3, p3⟩ := Maximum.nextBar_total s.max b h.max
-  refine ⟨_, nextBar_wiring s b atr' a mn' lo mx' hi e1 e2 e3, ⟨w1, w2, w3, ?_, ?_⟩, p1, rfl⟩
-  · exact (p2.trans h.pmin).trans p1.symm
-  · exact (p3.trans h.pmax).trans p1.symm
 
 end TaRs.Gen.ChandelierExit
